@@ -38,7 +38,7 @@ func VerifC17Yaml() {
 		long = vNondetInt("long_at")
 	}
 	vAssume(0 <= long && long < k)
+	vReach("before-processed")
 	out, err := NewTestRenumberer().processYaml("920100", []byte(c17Lines(k, long)))
-	vReach("processed")
 	vAssert(err != nil || countLines(string(out)) == k, "C17 processYaml: lines after a line longer than 64 KiB are silently dropped")
 }
